@@ -1161,7 +1161,7 @@ def respace(rng, ver: str, rows, toks: list) -> str:
         r = rng.random()
         pieces = []
         if ver != '10' and r < 0.3:
-            c = rng.choice(['(: c :)', '(::)', '(: a (: nested :) b :)', '(: + * ( [ :)', '(:\n:)'])
+            c = rng.choice(['(: c :)', '(::)', '(: a (: nested :) b :)', '(: + * ( [ :)', '(:\n:)', '(: 1 (: 2 (: 3 (: 4 :) :) :) :)'])
             pieces = [rng.choice(['', ' ', '\n']), c, rng.choice(['', ' ', '\t'])]
             # a comment does not separate tokens lexically in elementpath nor in the W3C grammar when
             # adjacent to names: keep one real space on the side of a word
@@ -1204,17 +1204,37 @@ def comment_end(src: str, i: int) -> int:
     return len(src)
 
 
-def trig_f04e(src: str) -> bool:
-    """trigger of finding F04e: a name is followed by a comment, and behind the end of that comment the same
-    line holds another ':)' directly followed by '(' or '::' — the greedy `\\(\\:.*\\:\\)` look-ahead of the
-    function / axis token patterns then spans both comments and the code between them"""
+def comment_depth(src: str, i: int) -> int:
+    """maximal nesting depth of the comment starting at src[i]"""
+    depth = best = 0
+    j = i
+    while j < len(src):
+        if src.startswith('(:', j):
+            depth += 1
+            best = max(best, depth)
+            j += 2
+        elif src.startswith(':)', j):
+            depth -= 1
+            j += 2
+            if depth == 0:
+                break
+        else:
+            j += 1
+    return best
+
+
+def trig_f04i(src: str) -> bool:
+    """trigger of finding F04i (the nesting limit of the comment look-ahead in the token patterns): a name is
+    followed by a sequence of comments, one of them nested five or more levels deep, and then by `(`, `::` or `{`"""
     import re
     for m in re.finditer(r'[^\d\W][\w.\-]*\s*(?=\(:)', src):
-        e = comment_end(src, m.end())
-        rest = src[e:]
-        if re.match(r'\s*(\((?!:)|::)', rest):
-            continue        # the name really is followed by ( or :: — recognising a function/axis is right
-        if re.match(r'[^\n]*:\)\s*(\((?!:)|::)', rest):
+        j, deep = m.end(), False
+        while src.startswith('(:', j):
+            deep = deep or comment_depth(src, j) >= 5
+            j = comment_end(src, j)
+            while j < len(src) and src[j].isspace():
+                j += 1
+        if deep and re.match(r'\((?!:)|::|\{', src[j:]):
             return True
     return False
 
@@ -1228,7 +1248,7 @@ def whitespace_pass(run: Run, cases: list[tuple[str, list]]) -> None:
         if canon(got) != canon(base):
             run.disagree(Disagreement({'version': ver, 'source': base_src, 'variant': src}, canon(got), None, canon(base),
                                       what='whitespace-comment-invariance', site='tokenizer / XPath2Parser.advance',
-                                      tags=['F04e'] if trig_f04e(src) else []))
+                                      tags=['F04i'] if trig_f04i(src) else []))
     for ver, toks in cases:
         rows = tabs[ver]
         base_src = render(rows, toks)
@@ -1244,7 +1264,7 @@ def whitespace_pass(run: Run, cases: list[tuple[str, list]]) -> None:
                 run.disagree(Disagreement({'version': ver, 'source': base_src, 'variant': src}, canon(got), None,
                                           canon(base), what='whitespace-comment-invariance',
                                           site='tokenizer / XPath2Parser.advance',
-                                          tags=['F04e'] if trig_f04e(src) else []))
+                                          tags=['F04i'] if trig_f04i(src) else []))
 
 
 # ---------------------------------------------------------------------- (iv) hash seeds
@@ -1265,7 +1285,11 @@ GENERAL_CORPUS = {
 }
 
 
-COMMENT_WITNESSES = [('20', 'string = (1)', 'string (: x :) = (: y :) (1)'),
+_DEEP5 = '(: 1 (: 2 (: 3 (: 4 (: 5 :) :) :) :) :)'
+_DEEP4 = '(: 1 (: 2 (: 3 (: 4 :) :) :) :)'
+COMMENT_WITNESSES = [('20', 'count(n1)', f'count {_DEEP5} (n1)'), ('20', 'child::n1', f'child {_DEEP5} :: n1'),
+                     ('20', 'count(n1)', f'count {_DEEP4} (: x :) {_DEEP4} (n1)'), ('20', 'child::n1', f'child{_DEEP4}::n1'),
+                     ('31', 'map { 1: 2 }', f'map {_DEEP4} {{ 1: 2 }}'), ('20', 'n1 + (n2)', f'n1 {_DEEP5} + {_DEEP5} (n2)'),('20', 'string = (1)', 'string (: x :) = (: y :) (1)'),
                     ('31', "1 cast as xs:string = ('1')", "1 cast as xs:string (: x :) = (: y :) ('1')"),
                     ('20', 'n1 + (n2)', 'n1 (: a :) + (: b :) (n2)'),
                     ('20', 'child::n1 = n2', 'child (: a :) :: n1 = n2 (: b :)')]
@@ -1675,7 +1699,7 @@ def correspond(run: Run) -> None:
     tabs = tables()
     rng = run.rng
     cases = corpus_cases()
-    n = run.scale(6000, 60000)
+    n = run.scale(5000, 60000)
     skipped = {}
     # quick: the four default parsers + XPath2Parser(compatibility_mode=True); thorough: all seven
     versions = VERSIONS + ['20c'] if run.quick else VERSIONS + COMPAT + COMPAT
